@@ -5,6 +5,7 @@ def dispatch (line : String) : String :=
   match (line.trimAscii.toString.splitOn " ").filter (· ≠ "") with
   | "expr" :: args => Driver.Expr.handle args
   | "lit" :: args => Driver.Expr.handleLit args
+  | "expr32" :: args => Driver.Expr.handle32 args
   | "asmret" :: args => Driver.Flow.handleAsmRet args
   | "mainflow" :: args => Driver.Flow.handleMain args
   | _ => "bad-op"
